@@ -9,6 +9,7 @@ CONSTANTS
   MaxLife = 2
   MaxDims = 1
   MaxSteps = 8
+  MaxGen = 0
   EmitActs = {"Create", "CreateBad", "Delete", "DeleteAbsent", "AddLink", "RemoveLink", "SetOne", "SetAttr", "SetType", "SetDef", "AppendDim", "DeleteDims", "Flush", "Close", "Open"}
   EmitRes = "any"
   EmitWhen = "ro"
